@@ -46,7 +46,8 @@ FailedAt(v, r) ==
    \cup (IF Cardinality(RepVerdicts(r)) # 1 \/ "P" \in RepVerdicts(r) THEN {"same_verdict_as_response"} ELSE {})
    \cup (IF Cardinality(NoPatVerdicts(r)) # 1 \/ "P" \in NoPatVerdicts(r) THEN {"same_verdict_patterns_disabled"} ELSE {})
    \cup (IF Cardinality(FmtVerdicts(r)) # 1 \/ "P" \in FmtVerdicts(r) THEN {"same_verdict_formats_enabled"} ELSE {})
-   \cup UNION {ErrBad(v, ErrAt(r, x)) : x \in Errs(r)}
+   \* the errors of a directed reading point into the value as that reading left it (defaults installed): logged as <key>v
+   \cup UNION {ErrBad(IF (x[1] \o "v") \in DOMAIN r THEN r[x[1] \o "v"] ELSE v, ErrAt(r, x)) : x \in Errs(r)}
 
 LineOK(line) ==
    IF line.load # "ok"
